@@ -1,60 +1,71 @@
 (* NameTie.v - what the translator (harness/t_util.py -> gen/Gen_Util.v) read
    out of util.sh, checked against what the name models assume.  These lemmas
    stop compiling when the build_id of util.sh is no longer the repaired one
-   (next free suffix), or when the log name format or the duplicate threshold
+   (largest suffix in use today plus one), or when the log name format or the duplicate threshold
    of log_id change (build_init and the shape of the functions are checked by
    the translator itself, which refuses anything it does not know). *)
-From Robsd Require Import Inv.NameSpec Inv.NameProofs.
+From Robsd Require Import Inv.NameSpec Inv.NameProofs Inv.NameMax.
 From RobsdGen Require Import Gen_Util.
+Local Open Scope N_scope.
 
 Lemma log_constants :
   log_pad_width = 3%nat /\ log_ext = dot_log /\ log_dups_threshold = 0%nat.
 Proof. repeat split; reflexivity. Qed.
 
-(* build_id in util.sh is one of the two algorithms modelled *)
+(* build_id in util.sh is one of the three algorithms modelled *)
 Lemma current_tie :
-  (build_id_is_fixed = false /\ build_id_current = build_id /\ gen_build_id_current = gen_build_id) \/
-  (build_id_is_fixed = true /\ build_id_current = build_id_fixed /\ gen_build_id_current = gen_build_id_fixed).
-Proof. first [left; repeat split; reflexivity | right; repeat split; reflexivity]. Qed.
+  (build_id_variant = 0 /\ build_id_current = build_id /\ gen_build_id_current = gen_build_id) \/
+  (build_id_variant = 1 /\ build_id_current = build_id_fixed /\ gen_build_id_current = gen_build_id_fixed) \/
+  (build_id_variant = 2 /\ build_id_current = build_id_max /\ gen_build_id_current = gen_build_id_max).
+Proof.
+  first [left; repeat split; reflexivity | right; left; repeat split; reflexivity | right; right; repeat split; reflexivity].
+Qed.
 
-Lemma current_fresh_if_fixed :
-  build_id_is_fixed = true ->
+(* both repairs hand out fresh names; the shipped count+1 does not *)
+Lemma current_fresh_if_repaired :
+  build_id_variant <> 0 ->
   (forall d start base tree, fresh_in (build_id_current d start base tree) tree) /\
   (forall d s, ~ In (gen_build_id_current d s) s) /\
   (forall ops s, no_collision (snd (history gen_build_id_current s ops))).
 Proof.
-  intros H. destruct current_tie as [[Hf _]|[_ [Hc Hg]]]; [congruence|].
-  rewrite Hc, Hg. split; [|split].
-  - intros. apply has_top_fresh, fixed_tree_fresh.
-  - apply fixed_flat_fresh.
-  - apply fixed_history_no_collision.
+  intros H. destruct current_tie as [[Hf _]|[[_ [Hc Hg]]|[_ [Hc Hg]]]]; [congruence| |]; rewrite Hc, Hg.
+  - split; [|split].
+    + intros. apply has_top_fresh, fixed_tree_fresh.
+    + apply fixed_flat_fresh.
+    + apply fixed_history_no_collision.
+  - split; [|split].
+    + intros. apply has_top_fresh, max_tree_fresh.
+    + apply max_flat_fresh.
+    + apply max_history_no_collision.
 Qed.
 
-(* ... and it is the repaired one: this is the lemma that breaks when the
-   loop is taken out of build_id again *)
-Lemma current_is_fixed : build_id_is_fixed = true.
+(* ... and it is the one that continues after the largest suffix in use: this
+   is the lemma that breaks when build_id goes back to counting *)
+Lemma current_is_max : build_id_variant = 2.
 Proof. reflexivity. Qed.
+
+Lemma current_is_repaired : build_id_variant <> 0.
+Proof. rewrite current_is_max. discriminate. Qed.
 
 Lemma current_fresh :
   (forall d start base tree, fresh_in (build_id_current d start base tree) tree) /\
   (forall d s, ~ In (gen_build_id_current d s) s) /\
   (forall ops s, no_collision (snd (history gen_build_id_current s ops))).
-Proof. exact (current_fresh_if_fixed current_is_fixed). Qed.
+Proof. exact (current_fresh_if_repaired current_is_repaired). Qed.
 
 Lemma current_flat d start base names :
-  prefixb d base = false -> nlcount start = 0%nat -> Forall (fun n => nlcount n = 0%nat) names ->
   build_id_current d start base (flat_tree names) = gen_build_id_current d names.
 Proof.
-  destruct current_tie as [[Hf _]|[_ [-> ->]]]; [rewrite current_is_fixed in Hf; discriminate|].
-  apply build_id_fixed_flat.
+  destruct current_tie as [[Hf _]|[[Hf _]|[_ [-> ->]]]]; try (rewrite current_is_max in Hf; discriminate).
+  apply build_id_max_flat.
 Qed.
 
-Lemma current_conservative d start base tree :
-  (has_top (build_id d start base tree) tree = false ->
-     build_id_current d start base tree = build_id d start base tree) /\
-  exists k, build_id_current d start base tree = with_suffix d k /\
-            (S (find_lines start base (date_test d) tree) <= k)%nat.
+(* the name is DATE.k with k above every suffix in use that day *)
+Lemma current_above d start base tree :
+  named_after d (build_id_current d start base tree) = true /\
+  build_id_current d start base tree = with_suffixN d (N.succ (max_suffix d (top_level tree))) /\
+  forall n k, In n (top_level tree) -> day_suffix d n = Some k -> k < N.succ (max_suffix d (top_level tree)).
 Proof.
-  destruct current_tie as [[Hf _]|[_ [-> _]]]; [rewrite current_is_fixed in Hf; discriminate|].
-  split; [apply fixed_agrees_when_fresh|apply fixed_named_after_count].
+  destruct current_tie as [[Hf _]|[[Hf _]|[_ [-> _]]]]; try (rewrite current_is_max in Hf; discriminate).
+  split; [apply max_named_after|]. split; [reflexivity|]. intros n k. apply max_above_all.
 Qed.
